@@ -51,6 +51,7 @@ type C18Case struct {
 	Files   []C18File `json:"files"`   // format: all targets, in argv order; infer: one target and at most one train file (none: the target trains itself)
 	Account string    `json:"account"` // infer: -a (empty: default Expenses:TBD)
 	Fault   string    `json:"fault"`   // fsize | rodir
+	Procs   string    `json:"procs,omitempty"` // GOMAXPROCS of the faulted runs ("" = all CPUs): with fewer workers than files one worker handles several files in turn
 	// Fracs: sample positions (per 10000 of len(new)) used for targets whose new content exceeds 600 bytes.
 	Fracs []int `json:"fracs,omitempty"`
 	// KsTried is filled in by the check (every k that was run), so that a replay file documents the enumeration.
@@ -58,6 +59,13 @@ type C18Case struct {
 }
 
 func init() { Register("C18", "all-or-nothing", checkC18) }
+
+func c18Env(c C18Case) []string {
+	if c.Procs == "" {
+		return nil
+	}
+	return []string{"GOMAXPROCS=" + c.Procs}
+}
 
 // c18Target is the expectation for one target file.
 type c18Target struct {
@@ -601,7 +609,7 @@ func c18Eval(c *C18Case) (o Outcome, nt []string) {
 	c.KsTried = ks
 	leftover := false
 	for _, k := range ks {
-		r := knutio.Run(knutio.Opts{Dir: dir, Prefix: []string{"prlimit", fmt.Sprintf("--fsize=%d", k)}}, c18Args(*c, true)...)
+		r := knutio.Run(knutio.Opts{Dir: dir, Env: c18Env(*c), Prefix: []string{"prlimit", fmt.Sprintf("--fsize=%d", k)}}, c18Args(*c, true)...)
 		o.Evals++
 		snap := c18Snapshot(dir)
 		what := fmt.Sprintf("RLIMIT_FSIZE=%d", k)
@@ -728,7 +736,7 @@ func c18EvalRodir(c *C18Case, o *Outcome) {
 	}
 	// control: same user, every directory writable
 	setModes(false)
-	r := knutio.Run(knutio.Opts{Dir: dir, Bin: bin, Prefix: c18Setpriv}, c18Args(*c, true)...)
+	r := knutio.Run(knutio.Opts{Dir: dir, Bin: bin, Env: c18Env(*c), Prefix: c18Setpriv}, c18Args(*c, true)...)
 	o.Evals++
 	snap := c18Snapshot(dir)
 	if v := c18Judge(*c, targets, r, snap, -1, nil, "control run as uid 65534, directories writable"); v != nil {
@@ -739,7 +747,7 @@ func c18EvalRodir(c *C18Case, o *Outcome) {
 	}
 	c18Restore(dir, c.Files, snap)
 	setModes(true)
-	r = knutio.Run(knutio.Opts{Dir: dir, Bin: bin, Prefix: c18Setpriv}, c18Args(*c, true)...)
+	r = knutio.Run(knutio.Opts{Dir: dir, Bin: bin, Env: c18Env(*c), Prefix: c18Setpriv}, c18Args(*c, true)...)
 	o.Evals++
 	setModes(false)
 	snap = c18Snapshot(dir)
@@ -904,6 +912,9 @@ func drawC18(t *rapid.T) C18Case {
 		}
 	}
 	c.Fracs = rapid.SliceOfN(rapid.IntRange(0, 10000), 8, 14).Draw(t, "fracs")
+	if len(c.Files) > 1 {
+		c.Procs = rapid.SampledFrom([]string{"", "", "1", "1", "2"}).Draw(t, "procs")
+	}
 	return c
 }
 
